@@ -167,9 +167,12 @@ class HGen:
         "add_node_to_edge", "remove_node", "remove_nodes_from", "remove_edge", "remove_edges_from",
         "remove_node_from_edge", "clear_edges", "clear", "update", "double_edge_swap",
         "random_edge_shuffle", "merge_duplicate_edges", "cleanup", "relabel", "lcc",
-        "set_node_attributes", "set_edge_attributes",
+        "set_node_attributes", "set_edge_attributes", "set_net_attr",
     )
-    WEIGHTS = (3, 3, 8, 10, 2, 4, 5, 3, 4, 3, 4, 0.6, 0.5, 2, 4, 3, 3, 1.5, 1.2, 1.2, 2, 2)
+    WEIGHTS = (3, 3, 8, 10, 2, 4, 5, 3, 4, 3, 4, 0.6, 0.5, 2, 4, 3, 3, 1.5, 1.2, 1.2, 2, 2, 1)
+
+    def g_set_net_attr(self):
+        return Op("__setitem__", (self.rng.choice(("name", "kind", "w")), self.rng.choice(ATTR_VALUES)))
 
     def g_add_node(self):
         n, _ = self.some_node(0.6)
@@ -267,6 +270,7 @@ class HGen:
         rng = self.rng
         eb = [tuple(self.new_members(1, 3)) + (rng.choice((0.5, 1, 2.5)),) for _ in range(rng.randint(0, 3))]
         kwargs = rand_attrs(rng, 0.3)
+        kwargs.pop("weight", None)  # would be taken as the `weight` parameter
         if rng.random() < 0.3:
             kwargs["weight"] = "w"
         return Op("add_weighted_edges_from", (eb,), kwargs, tags=frozenset({"fmt3"}))
@@ -443,9 +447,9 @@ class DHGen(HGen):
         "add_node", "add_nodes_from", "add_edge", "add_edges_from", "add_node_to_edge",
         "remove_node", "remove_nodes_from", "remove_edge", "remove_edges_from",
         "remove_node_from_edge", "clear", "cleanup", "relabel",
-        "set_node_attributes", "set_edge_attributes",
+        "set_node_attributes", "set_edge_attributes", "set_net_attr",
     )
-    WEIGHTS = (3, 3, 9, 10, 5, 6, 3, 4, 3, 5, 0.5, 1.5, 1.2, 2, 2)
+    WEIGHTS = (3, 3, 9, 10, 5, 6, 3, 4, 3, 5, 0.5, 1.5, 1.2, 2, 2, 1)
 
     def observe(self, net):
         self.nodes = list(net.nodes)
@@ -575,10 +579,10 @@ class SCGen(HGen):
         "add_node", "add_nodes_from", "add_simplex", "add_simplices_from", "add_weighted_simplices_from",
         "remove_simplex_id", "remove_simplex_ids_from", "remove_node", "remove_nodes_from",
         "close", "cleanup", "alias_add_edge", "alias_add_edges_from", "alias_add_weighted_edges_from",
-        "alias_remove_edge", "alias_remove_edges_from", "clear", "relabel",
-        "set_node_attributes", "set_edge_attributes",
+        "alias_remove_edge", "alias_remove_edges_from", "clear", "relabel", "lcc",
+        "set_node_attributes", "set_edge_attributes", "set_net_attr",
     )
-    WEIGHTS = (2, 2, 9, 10, 2, 6, 4, 4, 2, 1, 1.2, 2, 2, 1, 2, 1.5, 0.4, 1, 1.5, 1.5)
+    WEIGHTS = (2, 2, 9, 10, 2, 6, 4, 4, 2, 1, 1.2, 2, 2, 1, 2, 1.5, 0.4, 1, 1, 1.5, 1.5, 1)
 
     def _members_arg(self, tags, hi=5):
         rng = self.rng
@@ -630,6 +634,7 @@ class SCGen(HGen):
         tags = {"fmt3"}
         eb = [tuple(self.new_members(1, 4)) + (rng.choice((0.5, 1, 2.5)),) for _ in range(rng.randint(0, 3))]
         kwargs = rand_attrs(rng, 0.3)
+        kwargs.pop("weight", None)  # would be taken as the `weight` parameter
         if rng.random() < 0.3:
             kwargs["weight"] = "w"
         kwargs.update(self._max_order(tags))
